@@ -2,6 +2,7 @@ package main
 
 import (
 	"bytes"
+	"context"
 	"encoding/json"
 	"errors"
 	"fmt"
@@ -98,7 +99,9 @@ func rowsString(rows []sut.WalkRow) string {
 	return sb.String()
 }
 
-var c03Ops = []string{"text", "text-fmt1", "text-fmt5", "json", "yaml", "toml", "walk", "walkiter"}
+// the *-massive operations run the From-Root side with WithMassive (a single root: the result is schedule-independent)
+// and compare it with the simple From-Markdown result
+var c03Ops = []string{"text", "text-fmt1", "text-fmt5", "json", "yaml", "toml", "walk", "walkiter", "text-massive", "walk-massive", "json-massive"}
 var c03FSOps = []string{"mkdir", "mkdir-ext", "verify", "verify-strict", "mkdir-dry", "mkdir+verify-strict"}
 
 // c03Op runs one operation through the From-Root family (root != nil) or the From-Markdown family.
@@ -117,6 +120,12 @@ func c03Op(op string, root *gtree.Node, doc string, alias bool) (res opResult, p
 		defer j.Remove()
 		target = j.Target
 		opts = append(opts, gtree.WithTargetDir(j.Target))
+	}
+	if strings.HasSuffix(op, "-massive") {
+		op = strings.TrimSuffix(op, "-massive")
+		if root != nil {
+			opts = append(opts, gtree.WithMassive(context.Background()))
+		}
 	}
 	switch op {
 	case "text-fmt1":
@@ -141,7 +150,8 @@ func c03Op(op string, root *gtree.Node, doc string, alias bool) (res opResult, p
 	var buf bytes.Buffer
 	var err error
 	var rows []sut.WalkRow
-	cb := func(wn *gtree.WalkerNode) error { rows = append(rows, sut.FromWalker(wn)); return nil }
+	var kept []*gtree.WalkerNode // nodes handed out are kept and read again after the walk: they must still describe their own node
+	cb := func(wn *gtree.WalkerNode) error { rows = append(rows, sut.FromWalker(wn)); kept = append(kept, wn); return nil }
 	rd := func() *strings.Reader { return strings.NewReader(doc) }
 	pan = sut.Guard(func() {
 		switch op {
@@ -179,6 +189,7 @@ func c03Op(op string, root *gtree.Node, doc string, alias bool) (res opResult, p
 						break
 					}
 					rows = append(rows, sut.FromWalker(wn))
+					kept = append(kept, wn)
 				}
 			} else {
 				err = gtree.WalkFromMarkdown(rd(), cb, opts...)
@@ -227,6 +238,13 @@ func c03Op(op string, root *gtree.Node, doc string, alias bool) (res opResult, p
 			color.Output = old
 		}
 	})
+	if pan == "" {
+		pan = sut.Guard(func() {
+			for _, wn := range kept {
+				rows = append(rows, sut.FromWalker(wn))
+			}
+		})
+	}
 	res = opResult{out: buf.String(), err: errStr(err, target), rows: rowsString(rows)}
 	if j != nil {
 		res.fs = fmt.Sprint(fsx.Snapshot(j.Target))
